@@ -267,6 +267,9 @@ def globals_rule(prog, rep, eff):
                     for nm in ast.walk(t):
                         if isinstance(nm, ast.Name) and nm.id in decl and isinstance(nm.ctx, ast.Store):
                             bad.append((q, node.lineno, f"assigns the module-level name {nm.id}"))
+        memo = [d for d in fn.decorators if "lru_cache" in d or d.endswith("cache") or "cached_property" in d]
+        if memo:
+            bad.append((q, fn.node.lineno, f"is memoised ({memo[0]}): every caller receives the same object, so state leaks between models / contours"))
         s = eff.summ.get(q)
         if s:
             for r in s["mut"]:
